@@ -16,7 +16,7 @@ import (
 )
 
 var c09Msgs = []string{"send-restart", "send-norestart", "create-account", "split", "move", "move-denoms", "sig-create-valid-key", "sig-create-other-key", "sig-create-malformed"}
-var c09Targets = []string{"absent", "base-nokey", "base-withkey", "base-empty", "continuous-vesting", "delayed-vesting", "module-materialised", "module-unmaterialised", "signer-itself"}
+var c09Targets = []string{"absent", "base-nokey", "base-withkey", "base-empty", "continuous-vesting", "delayed-vesting", "module-materialised", "module-unmaterialised", "module-gov", "signer-itself"}
 var c09Signers = []string{"proper", "stranger"}
 
 func c09Combos() int { return len(c09Msgs) * len(c09Targets) * len(c09Signers) }
@@ -94,6 +94,8 @@ func runC09(c *fw.Case) {
 		target, targetKey = e.delayed.Bech(), &e.delayed
 	case "module-materialised":
 		target = chain.ModuleAddr("green_energy_booster_collector")
+	case "module-gov":
+		target = e.govKey.Bech() // exists since genesis and is not on the bank's blocked list
 	case "module-unmaterialised":
 		target = chain.ModuleAddr("governance_booster_collector")
 	case "signer-itself":
